@@ -36,7 +36,8 @@ func c12Request(i int) *dns.Msg {
 	q.Id = uint16(0x5000 + i)
 	o := &dns.OPT{Hdr: dns.RR_Header{Name: ".", Rrtype: dns.TypeOPT, Class: 1232}}
 	o.Option = append(o.Option,
-		&dns.EDNS0_SUBNET{Code: dns.EDNS0SUBNET, Family: 1, SourceNetmask: 32, Address: net.IP{10, 0, byte(i), 1}},
+		&dns.EDNS0_SUBNET{Code: dns.EDNS0SUBNET, Family: 2, SourceNetmask: 128, Address: net.IP{0x20, 1, 0xd, 0xb8, 0, byte(i), 0, 0, 0, 0, 0, 0, 0, 0, 0, byte(0x10 + i)}},
+		&dns.EDNS0_PADDING{Padding: bytes.Repeat([]byte{byte(0x30 + i)}, 5)},
 		&dns.EDNS0_COOKIE{Code: dns.EDNS0COOKIE, Cookie: fmt.Sprintf("%016x", 0x1111111111111111*uint64(i+1))},
 		&dns.EDNS0_LOCAL{Code: 65001, Data: bytes.Repeat([]byte{byte(0xa0 + i)}, 6)})
 	q.Extra = []dns.RR{&dns.A{Hdr: dns.RR_Header{Name: fmt.Sprintf("glue%d.example.", i), Rrtype: dns.TypeA, Class: 1, Ttl: uint32(i)}, A: net.IP{192, 0, 2, byte(i)}}, o}
